@@ -227,7 +227,7 @@ def execute(ctx, behaviours, name, server_flags=None, timeout=1800, shards=None,
 VIOLS_RE = re.compile(r'^<<"VIOLS", "(.*)">>$')
 
 
-def validate(ctx, traces, module="YorkieTrace", cfg="YorkieTrace.cfg", timeout=1800):
+def validate(ctx, traces, module="YorkieTrace", cfg="YorkieTrace.cfg", timeout=1800, env_extra=None):
     """Feeds recorded traces to the trace specification. Returns list of
     violations [{tag,tid,line,trace}] ; raises Infra if a trace is not accepted."""
     procs = []
@@ -241,6 +241,8 @@ def validate(ctx, traces, module="YorkieTrace", cfg="YorkieTrace.cfg", timeout=1
         os.makedirs(tmp)
         env = _tlc_env(tmp)
         env["YTRACE"] = t
+        if env_extra:
+            env.update(env_extra)
         cmd = ["tlc", "-workers", "1", "-metadir", os.path.join(d, "md"), "-config", "run.cfg", module + ".tla"]
         fo = open(os.path.join(d, "out.txt"), "w")
         procs.append((t, d, fo, subprocess.Popen(cmd, cwd=d, env=env, stdout=fo, stderr=subprocess.STDOUT), time.time()))
